@@ -355,6 +355,32 @@ def setup_sites(db, rep):
             'no control/localiphost: the name substituted for local IP literals is %r (flag %s); documented: control/me = %r, so that <postmaster@[127.0.0.1]> is judged like <postmaster@me>' % (lip, ok, SetupHooks.ME), tr if not good else [])}
 
 
+def rcpthosts_state(db, rep, prog, flagrh, fdm):
+    """the file-private state rcpthosts_init() leaves behind for a scenario (list file absent / present, compiled list opened as
+    descriptor fdm or absent): obtained by running it, so that the state does not depend on what the variables are called"""
+    from rules import libtab as _lt
+
+    class IH(_lt.SAConc, _lt.Conc):
+        def prim_control_readfile(self_, E, x, args):
+            if not flagrh:
+                return [Outcome(ret=fs(0))]
+            o = self_._put(E, x, args, b'listed.example\0', False)[0]
+            return [Outcome(ret=fs(1), sets=o.sets)]
+
+        def prim_constmap_init(self_, E, x, args):
+            return [Outcome(ret=fs(1))]
+
+        def prim_open_read(self_, E, x, args):
+            if fdm == -1:
+                return [Outcome(ret=fs(-1), sets={'$errno': fs(2)})]
+            return [Outcome(ret=fs(fdm))]
+    H = IH('rcpthosts_init')
+    _lt._run_conc(db, rep, prog, db.fn('rcpthosts.c', 'rcpthosts_init'), {'G:error_noent': fs(2)}, 'rcpthosts_init', H)
+    if len(H.ends) != 1:
+        raise AnalysisBroken('rcpthosts_init: %d ends while preparing the state for rcpthosts()' % len(H.ends))
+    return {k_: v_ for k_, v_ in H.ends[0][0].items() if '::' not in k_ and not k_.startswith('$')}
+
+
 def rcpthosts_init_sites(db, rep):
     """rcpthosts_init() over the outcomes of reading control/rcpthosts (unreadable, absent, present with entries, present but
     empty) and of opening morercpthosts.cdb: the list is in force (flagrh = 1) whenever the file exists - an empty file closes the
@@ -667,6 +693,7 @@ def run(ctx):
     doms = [''] + [''.join(t) for n in range(1, ctx.deep(4, 7) + 1) for t in itertools.product('X.', repeat=n)]
     addrs = [('u@' + d, d) for d in doms] + [('a@b@X.X', 'X.X'), ('noat', None), ('', None)]
     ncell = 0
+    rh_states = {}
     for addr_, dom in addrs:
         for flagrh in (0, 1):
             for fdm in (-1, 5):
@@ -675,8 +702,10 @@ def run(ctx):
                 H = RcptHooks(addr_)
                 e = Engine(db, prog, H)
                 fid = e.frame_id(rh)
-                st = {'%s::%s' % (fid, rh.params[0]): fs(('&', 'BUF[0]')), '%s::%s' % (fid, rh.params[1]): fs(len(addr_)),
-                      'S:rcpthosts_c:flagrh': fs(flagrh), 'S:rcpthosts_c:fdmrh': fs(fdm)}
+                if (flagrh, fdm) not in rh_states:
+                    rh_states[(flagrh, fdm)] = rcpthosts_state(db, rep, prog, flagrh, fdm)
+                st = dict(rh_states[(flagrh, fdm)])
+                st.update({'%s::%s' % (fid, rh.params[0]): fs(('&', 'BUF[0]')), '%s::%s' % (fid, rh.params[1]): fs(len(addr_))})
                 for i_, ch in enumerate(addr_):
                     st['BUF[%d]' % i_] = fs(ord(ch))
                 e.run(rh, st)
